@@ -1,6 +1,22 @@
 import GS.Model.RespMgr
+import GSProofs.Lemmas.RespMgr
 /-!
-# C10 — Messages from one peer cannot alter a response served to another  (work in progress)
+# C10 — Messages from one peer cannot alter a response served to another
+
+Property sentence: *a cancel, update or new request sent by one peer never cancels, pauses, updates,
+replaces or otherwise changes a response the responder is serving to a different peer, even if it
+carries the same request ID, and never changes the outcome notifications for that response.*
+
+Model: `GS.RespMgr` (GS/Model/RespMgr.lean).  `processRequests` dispatches according to
+`GS.Generated.RespDispatch.dispatch`, which translate/respdispatch regenerates from
+responsemanager/server.go on every check: per request type the handler and whether a peer guard
+(`entry.peer != sender` ⇒ skip) protects it.  The theorems are proved for every dispatch table that
+satisfies `AllGuarded` and instantiated with the generated one (`dispatch_guarded`, by `decide`);
+removing or weakening the guard in the Go source makes that `decide` fail.
+
+`table_key_is_request_id` records the other generated fact the statements rest on: the table (and the
+subscriber's RequestCloser) address responses by request ID only, which is why the guard is needed
+at all and why the model's table is `ReqId ↦ object`.
 -/
 namespace GS.C10
 open GS.RespMgr GS.Generated
@@ -8,6 +24,186 @@ open GS.RespMgr GS.Generated
 /-- every request type is dispatched behind a peer guard -/
 def AllGuarded (d : List DispatchCase) : Bool := d.all (·.peerGuard)
 
+/-- today's dispatch is guarded for cancel, update and new (depends on the Go source) -/
 theorem dispatch_guarded : AllGuarded RespDispatch.dispatch = true := by decide
+
+/-- the response table and the subscriber's closer are keyed by request ID only -/
+theorem table_key_is_request_id :
+    RespDispatch.keyKind = .requestId ∧ RespDispatch.closerKey = .requestId := by decide
+
+theorem guard_of_case {d : List DispatchCase} (hg : AllGuarded d = true) {t : ReqType} {c : DispatchCase}
+    (hc : dispatchCase d t = some c) : c.peerGuard = true := by
+  unfold dispatchCase at hc
+  have hmem : c ∈ d := List.mem_of_find?_eq_some hc
+  unfold AllGuarded at hg
+  exact List.all_eq_true.mp hg c hmem
+
+/-! ## single step -/
+
+/-- a request whose ID is in the table for another peer is a no-op -/
+theorem handleOne_foreign (d : List DispatchCase) (hg : AllGuarded d = true) (q : Peer) (s : State) (x : Request)
+    (hf : foreign s q x = true) : handleOne d q s x = (s, []) := by
+  unfold handleOne
+  split
+  · rfl
+  · rename_i c hc
+    simp [guard_of_case hg hc, hf]
+
+/-- whatever else a request from `q` does, it stays within `q`'s own responses -/
+theorem handleOne_frame (d : List DispatchCase) (hg : AllGuarded d = true) (q : Peer) (s : State) (x : Request) :
+    Frame q s (handleOne d q s x).1 ∧ AllPeer q (handleOne d q s x).2 := by
+  unfold handleOne
+  split
+  · exact ⟨Frame.refl q s, allPeer_nil q⟩
+  · rename_i c hc
+    have hguard := guard_of_case hg hc
+    by_cases hf : foreign s q x = true
+    · simp only [hguard, hf, Bool.and_self, if_true]
+      exact ⟨Frame.refl q s, allPeer_nil q⟩
+    · have hf' : foreign s q x = false := by simpa using hf
+      have hown : ∀ k o, s.lookup x.id = some (k, o) → o.peer = q := fun k o hl => foreign_false hf' hl
+      simp only [hguard, hf', Bool.and_false, Bool.false_eq_true, if_false]
+      cases c.handler with
+      | new => exact new_frame q s x hown
+      | abort => exact abort_frame q s x.id .ctxCancel hown
+      | update => exact update_frame q s x.id x.uh hown
+
+theorem processRequests_frame (d : List DispatchCase) (hg : AllGuarded d = true) (q : Peer) (s : State)
+    (reqs : List Request) :
+    Frame q s (processRequests d q s reqs).1 ∧ AllPeer q (processRequests d q s reqs).2 := by
+  induction reqs generalizing s with
+  | nil => exact ⟨Frame.refl q s, allPeer_nil q⟩
+  | cons x xs ih =>
+    obtain ⟨f1, e1⟩ := handleOne_frame d hg q s x
+    obtain ⟨f2, e2⟩ := ih (handleOne d q s x).1
+    exact ⟨Frame.trans f1 f2, allPeer_append e1 e2⟩
+
+/-- **C10, one step.**  For every state `s`, every response object `o` (table entry `id ↦ k`) that is
+    being served to peer `p`, every peer `q ≠ p` and ANY list of requests from `q` (new / cancel /
+    update with any IDs, including `id`): after `processRequests q reqs`
+    * the table still maps `id` to the same object and the object is unchanged — its state, its
+      pause / update / error signals, queued updates, traversal position, network-error flag,
+      un-notified terminal status;
+    * the task queue entries of every other peer (in particular a queued task `(p, id)`), the active
+      tasks and the running executors are unchanged;
+    * every output event of the step concerns `q`: nothing is written to a stream of `p`, no
+      completed / cancelled / network-error / processing listener fires for `p`, no hook runs in
+      `p`'s name, `p`'s connection is neither protected nor unprotected.
+    No reachability hypothesis is needed. -/
+theorem noninterference (s : State) (id : ReqId) (k : Serial) (o : Obj) (p q : Peer) (reqs : List Request)
+    (ht : s.table.get id = some k) (hk : s.obj k = some o) (hp : o.peer = p) (hq : q ≠ p) :
+    let s' := (step s (.msg q reqs)).1
+    s'.table.get id = some k ∧ s'.obj k = some o
+    ∧ s'.pending.filter (fun t => t.1 != q) = s.pending.filter (fun t => t.1 != q)
+    ∧ s'.active = s.active ∧ s'.execs = s.execs
+    ∧ ∀ ev ∈ (step s (.msg q reqs)).2.1, ev.peer ≠ p := by
+  obtain ⟨f, e⟩ := processRequests_frame RespDispatch.dispatch dispatch_guarded q s reqs
+  have hpq : o.peer ≠ q := by rw [hp]; exact fun h => hq h.symm
+  refine ⟨f.table id k o ht hk hpq, f.objs k o hk hpq, f.pending, f.active, f.execs, ?_⟩
+  intro ev hev
+  have := e ev hev
+  rw [this]; exact hq
+
+/-! ## whole histories -/
+
+theorem step_erase_foreign (s : State) (q : Peer) (pre post : List Request) (x : Request)
+    (hf : foreign (processRequests RespDispatch.dispatch q s pre).1 q x = true) :
+    step s (.msg q (pre ++ x :: post)) = step s (.msg q (pre ++ post)) := by
+  simp only [step, stepD]
+  rw [processRequests_append, processRequests_append]
+  simp only [processRequests, handleOne_foreign RespDispatch.dispatch dispatch_guarded q _ x hf, List.nil_append]
+
+/-- `ErasedFrom s h h'`: `h'` is the history `h` (run from `s`) with some foreign requests deleted —
+    a request from `q` is foreign when, at the moment the dispatch loop reaches it, its ID is in the
+    table for a peer other than `q`.  Any number of deletions, at any point of the victims'
+    lifecycles, interleaved with arbitrary other operations. -/
+inductive ErasedFrom : State → List Op → List Op → Prop
+  | nil (s : State) : ErasedFrom s [] []
+  | keep (s : State) (op : Op) (ops ops' : List Op) :
+      ErasedFrom (step s op).1 ops ops' → ErasedFrom s (op :: ops) (op :: ops')
+  | erase (s : State) (q : Peer) (pre post : List Request) (x : Request) (ops ops' : List Op) :
+      foreign (processRequests RespDispatch.dispatch q s pre).1 q x = true →
+      ErasedFrom s (Op.msg q (pre ++ post) :: ops) ops' →
+      ErasedFrom s (Op.msg q (pre ++ x :: post) :: ops) ops'
+
+/-- **C10 over histories.**  A history and the same history with the foreign requests deleted give
+    the same final state and the same outputs at every step (stream transactions, listener
+    notifications, hook calls, connection manager calls, task-queue operations, results): requests
+    from another peer carrying a live ID are no-ops, so in particular everything the first peer
+    observes later — its wire output, its completed / cancelled / network-error notifications — is
+    what it would have been without the second peer.  By induction on the history. -/
+theorem noninterference_run (s : State) (h h' : List Op) (he : ErasedFrom s h h') :
+    runD RespDispatch.dispatch s h = runD RespDispatch.dispatch s h' := by
+  induction he with
+  | nil s => rfl
+  | keep s op ops ops' _ ih =>
+    simp only [runD]
+    have : (stepD RespDispatch.dispatch s op) = step s op := rfl
+    rw [this, ih]
+  | erase s q pre post x ops ops' hx _ ih =>
+    rw [← ih]
+    have := step_erase_foreign s q pre post x hx
+    simp only [step] at this
+    simp only [runD, this]
+
+/-! ## every guard is necessary: the dispatch before commit 7d665e5 is refuted -/
+
+/-- the dispatch of `processRequests` before the fix: no peer guard anywhere -/
+def dispatchBeforeFix : List DispatchCase :=
+  [{ typ := .cancel, handler := .abort, peerGuard := false },
+   { typ := .update, handler := .update, peerGuard := false },
+   { typ := .new, handler := .new, peerGuard := false }]
+
+/-- peer 0 is served response 1 (3 blocks, queued) -/
+def sQueued : State := (stepD dispatchBeforeFix {} (.msg 0 [{ typ := .new, id := 1, total := 3 }])).1
+/-- peer 0 is served response 1, paused by the request hook -/
+def sPaused : State := (stepD dispatchBeforeFix {} (.msg 0 [{ typ := .new, id := 1, total := 3, rh := .paused }])).1
+
+example : sQueued.table.get 1 = some 0 ∧ (sQueued.obj 0).map (·.peer) = some 0 := by decide
+
+/-- **cancel**: peer 1 cancels peer 0's queued response — table entry gone, peer 0's queued task
+    removed, its stream cleared, its connection unprotected, the cancelled listener fires for peer 0 -/
+theorem counterexample_cancel :
+    (stepD dispatchBeforeFix sQueued (.msg 1 [{ typ := .cancel, id := 1 }])).1.table.get 1 = none
+    ∧ (stepD dispatchBeforeFix sQueued (.msg 1 [{ typ := .cancel, id := 1 }])).2.1
+        = [Ev.remove 0 1, Ev.tx 0 0 1 .clear, Ev.unprotect 0 1, Ev.lCancelled 0 1] := by
+  decide
+
+/-- **update**: peer 1's update reaches the update hook in peer 0's name and un-pauses peer 0's response -/
+theorem counterexample_update :
+    ((stepD dispatchBeforeFix sPaused (.msg 1 [{ typ := .update, id := 1, uh := .unpause }])).1.obj 0).map (·.state)
+        = some .queued
+    ∧ (stepD dispatchBeforeFix sPaused (.msg 1 [{ typ := .update, id := 1, uh := .unpause }])).2.1
+        = [Ev.hookUpd 0 1, Ev.push 0 1] := by
+  decide
+
+/-- **new**: peer 1's new request with the same ID replaces peer 0's table entry (peer 0 has no
+    response 1 any more according to PeerState), and peer 0's own cancel then kills peer 1's response -/
+theorem counterexample_new :
+    let s1 := (stepD dispatchBeforeFix sQueued (.msg 1 [{ typ := .new, id := 1, total := 2 }])).1
+    peerState s1 0 = [] ∧ peerState s1 1 = [(1, .queued)]
+    ∧ (stepD dispatchBeforeFix s1 (.msg 0 [{ typ := .cancel, id := 1 }])).2.1
+        = [Ev.remove 1 1, Ev.tx 1 1 1 .clear, Ev.unprotect 1 1, Ev.lCancelled 1 1] := by
+  decide
+
+/-- the same three attacks on today's dispatch: nothing happens
+    (and the hypotheses of `noninterference` are met by `sQueued` / `sPaused`: non-vacuity) -/
+example : (step sQueued (.msg 1 [{ typ := .cancel, id := 1 }])).2.1 = []
+    ∧ (step sPaused (.msg 1 [{ typ := .update, id := 1, uh := .unpause }])).2.1 = []
+    ∧ (step sQueued (.msg 1 [{ typ := .new, id := 1, total := 2 }])).2.1 = []
+    ∧ peerState (step sQueued (.msg 1 [{ typ := .new, id := 1, total := 2 }])).1 0 = [(1, .queued)] := by
+  decide
+
+/-- non-vacuity of `noninterference_run`: peer 1 replays peer 0's ID with a cancel while peer 0's
+    executor is between two blocks, inside a message that also carries a request of its own -/
+example : ErasedFrom {}
+    [.msg 0 [{ typ := .new, id := 1, total := 2 }], .start 0 1, .step 0 1,
+     .msg 1 ([{ typ := .new, id := 2, total := 1 }] ++ { typ := .cancel, id := 1 } :: []), .step 0 1, .sent 0 0]
+    [.msg 0 [{ typ := .new, id := 1, total := 2 }], .start 0 1, .step 0 1,
+     .msg 1 ([{ typ := .new, id := 2, total := 1 }] ++ []), .step 0 1, .sent 0 0] := by
+  apply ErasedFrom.keep; apply ErasedFrom.keep; apply ErasedFrom.keep
+  apply ErasedFrom.erase
+  · decide
+  · apply ErasedFrom.keep; apply ErasedFrom.keep; apply ErasedFrom.keep; exact ErasedFrom.nil _
 
 end GS.C10
